@@ -28,6 +28,27 @@ def _layout(a: np.ndarray) -> np.ndarray:
     return a
 
 
+_D = [0]
+DTYPE_TALLY = {"int8": 0, "int16": 0, "default": 0}
+
+
+def _coords(a) -> np.ndarray:
+    """coordinates in one of the integer types the library itself produces: the platform default (generators, solver), int8 (what the
+    minimal dataset formats and the adjacency-list helpers hand out - the library's declared coordinate type) or int16"""
+    a = np.array(a)
+    _D[0] += 1
+    k = _D[0] % 5
+    if a.size and a.dtype.kind in "iu" and a.min() >= 0:
+        if k == 1 and a.max() < 128:
+            DTYPE_TALLY["int8"] += 1
+            return a.astype(np.int8)
+        if k == 3 and a.max() < 32768:
+            DTYPE_TALLY["int16"] += 1
+            return a.astype(np.int16)
+    DTYPE_TALLY["default"] += 1
+    return a
+
+
 def lattice(cl):
     from maze_dataset.maze.lattice_maze import LatticeMaze
 
@@ -37,13 +58,13 @@ def lattice(cl):
 def targeted(cl, s, e):
     from maze_dataset.maze.lattice_maze import TargetedLatticeMaze
 
-    return TargetedLatticeMaze(connection_list=_layout(np.array(cl, dtype=bool)), start_pos=np.array(s), end_pos=np.array(e))
+    return TargetedLatticeMaze(connection_list=_layout(np.array(cl, dtype=bool)), start_pos=_coords(s), end_pos=_coords(e))
 
 
 def solved(cl, path, meta=None):
     from maze_dataset.maze.lattice_maze import SolvedMaze
 
-    return SolvedMaze(connection_list=_layout(np.array(cl, dtype=bool)), solution=_layout(np.array(path)), generation_meta=meta)
+    return SolvedMaze(connection_list=_layout(np.array(cl, dtype=bool)), solution=_layout(_coords(path)), generation_meta=meta)
 
 
 _SUB = {}
